@@ -39,7 +39,7 @@ EVIDENCE = {
 
 LE_PROCS = ['gatt_read', 'gatt_long_read', 'gatt_write', 'gatt_discover_services', 'gatt_discover_all', 'gatt_subscribe', 'gatt_indicate', 'pair',
             'coc_connect', 'coc_disconnect', 'coc_write_drain', 'connect_le_pending', 'disconnect_pending', 'hci_command', 'eatt_subscribe', 'encrypt',
-            'gatt_notify_then_read', 'remote_features', 'update_parameters_l2cap']
+            'gatt_notify_then_read', 'remote_features', 'update_parameters_l2cap', 'cis_create', 'cis_disconnect']
 CLASSIC_PROCS = ['classic_connect_pending', 'classic_remote_features', 'classic_remote_name', 'classic_connect', 'classic_disconnect', 'ertm_transfer', 'rfcomm_start', 'rfcomm_open_dlc', 'rfcomm_transfer', 'sdp_query', 'avdtp_discover',
                  'sco_setup', 'sco_disconnect', 'rfcomm_shutdown_drain']
 FAULTS = ['local_disconnect', 'remote_disconnect', 'link_loss_both', 'transport_loss_initiator', 'transport_loss_responder']
@@ -68,6 +68,7 @@ def _build(sim, case):
     proc = case['proc']
     classic = proc in CLASSIC_PROCS
     cx = Ctx()
+    cx.extra_tasks = []
     nb = 3 if case.get('bystander') else 2
     world = World(sim, nb, classic=classic)
     cx.world = world
@@ -268,6 +269,46 @@ def _build(sim, case):
                         dlc.write(bytes(1500))
                         return [('dlc.drain', dlc.drain())]
                 cx.start = go
+    elif proc in ('cis_create', 'cis_disconnect'):
+        import warnings
+        from bumble.device import CigParameters
+        warnings.simplefilter('ignore', FutureWarning)
+        cx.cis = [[], []]  # every CisLink object the devices were given
+        cx.cis_ended = []
+
+        def track(i, link):
+            if link not in cx.cis[i]:
+                cx.cis[i].append(link)
+                link.on('disconnection', lambda *a: cx.cis_ended.append(link))
+
+        def on_req(link):
+            track(1, link)
+            cx.extra_tasks.append(('accept_cis_request', sim.loop.create_task(d1.accept_cis_request(link))))
+        d1.on('cis_request', on_req)
+        d0.on('cis_establishment', lambda link: track(0, link))  # in the event itself: a task woken by it may run after the link has ended
+        handles = sim.must(d0.setup_cig(CigParameters(cig_id=1, cis_parameters=[CigParameters.CisParameters(cis_id=2)], sdu_interval_c_to_p=0, sdu_interval_p_to_c=0)), 'cig')
+
+        async def create():
+            links = await d0.create_cis([(handles[0], c0)])
+            for l in links:
+                track(0, l)
+            return links
+        if proc == 'cis_create':
+            cx.start = lambda: [('create_cis', create())]
+        else:
+            links = sim.must(create(), 'create_cis')
+            sim.loop.settle(vt_budget=1.0)
+            if not cx.cis[1]:
+                raise HarnessError('no CIS at the peripheral')
+            cx.extra_tasks.clear()
+
+            async def link_end(link):
+                if link in cx.cis_ended:
+                    return
+                fut = sim.loop.create_future()
+                link.once('disconnection', lambda *a: fut.done() or fut.set_result(None))
+                await fut
+            cx.start = lambda: [('cis_link.disconnect', links[0].disconnect()), ('await end of CIS (local)', link_end(links[0])), ('await end of CIS (peer)', link_end(cx.cis[1][0]))]
     elif proc in ('sco_setup', 'sco_disconnect'):
         from bumble import hci, hfp
         params = hfp.ESCO_PARAMETERS[hfp.DefaultCodecParameters.ESCO_CVSD_S1].asdict()
@@ -325,7 +366,7 @@ FAMILY = {'gatt_read': 'gatt', 'gatt_long_read': 'gatt', 'gatt_write': 'gatt', '
           'gatt_subscribe': 'gatt-subscribe', 'gatt_indicate': 'gatt-indicate', 'pair': 'pair', 'coc_connect': 'coc', 'coc_disconnect': 'coc', 'coc_write_drain': 'coc',
           'connect_le_pending': 'connect', 'disconnect_pending': 'disconnect', 'hci_command': 'hci', 'classic_connect': 'classic-l2cap',
           'classic_disconnect': 'classic-l2cap', 'ertm_transfer': 'classic-l2cap', 'rfcomm_start': 'rfcomm', 'rfcomm_open_dlc': 'rfcomm', 'rfcomm_transfer': 'rfcomm',
-          'sdp_query': 'sdp', 'avdtp_discover': 'avdtp', 'sco_setup': 'sco', 'sco_disconnect': 'sco', 'rfcomm_shutdown_drain': 'rfcomm', 'eatt_subscribe': 'eatt', 'encrypt': 'pair', 'gatt_notify_then_read': 'gatt',
+          'sdp_query': 'sdp', 'avdtp_discover': 'avdtp', 'sco_setup': 'sco', 'sco_disconnect': 'sco', 'cis_create': 'cis', 'cis_disconnect': 'cis', 'rfcomm_shutdown_drain': 'rfcomm', 'eatt_subscribe': 'eatt', 'encrypt': 'pair', 'gatt_notify_then_read': 'gatt',
           'remote_features': 'hci', 'classic_remote_features': 'hci', 'classic_connect_pending': 'connect', 'classic_remote_name': 'hci', 
           'update_parameters_l2cap': 'le-signalling'}
 
@@ -419,7 +460,6 @@ def _one(case, k):
     sim = Sim(case['seed'], case.get('profile', 'zero'), slow_node='N1')
     try:
         cx = _build(sim, case)
-        cx.extra_tasks = []
         world = cx.world
         base = _air(world)
         hci_mode = case.get('boundary') == 'hci' and case['fault'].startswith('transport_loss')
@@ -547,7 +587,8 @@ def _check_tables(sim, cx, case, handles, unreachable):
     # synchronous / isochronous links ride on an ACL connection: they are listed alike on every layer, and none outlives its ACL
     for i, nd in enumerate(world.nodes):
         for kind in ('sco_links', 'cis_links'):
-            hs, ds = set(getattr(nd.host, kind)), set(getattr(nd.device, kind))
+            # (the device also lists a CIS that is still being established; the host lists established ones only)
+            hs, ds = set(getattr(nd.host, kind)), {h for h, l in getattr(nd.device, kind).items() if getattr(getattr(l, 'state', None), 'name', 'ESTABLISHED') == 'ESTABLISHED'}
             if hs != ds:
                 sim.violation_once(f'tables-hd:{kind}', f'connection-tables-disagree:host-vs-device:{kind}:{fc}', f'N{i}: host {sorted(hs)}, device {sorted(ds)}')
             for h, link in list(getattr(nd.device, kind).items()):
@@ -562,6 +603,10 @@ def _check_tables(sim, cx, case, handles, unreachable):
         for link in links:
             if world[i].device.sco_links.get(link.handle) is not link and link not in cx.sco_ended:
                 sim.violation_once('sco-silent', f'link-dropped-without-disconnection-event:sco:{fc}', f'N{i}: SCO link {link.handle:#x} is no longer listed but never reported its disconnection')
+    for i, links in enumerate(getattr(cx, 'cis', [])):
+        for link in links:
+            if world[i].device.cis_links.get(link.handle) is not link and link not in cx.cis_ended and link.state.name == 'ESTABLISHED':
+                sim.violation_once('cis-silent', f'link-dropped-without-disconnection-event:cis:{fc}', f'N{i}: CIS {link.handle:#x} is no longer listed but never reported its disconnection')
     # an RFCOMM channel does not outlive the session that carried it
     if getattr(cx, 'dlcs', None) and any(c is None or world[i].device.connections.get(c.handle) is not c for i, c in ((0, cx.c0), (1, cx.c1))):
         for i, x in enumerate(cx.dlcs):
